@@ -928,3 +928,38 @@ Proof.
   repeat split; try (vm_compute; reflexivity).
   eexists. split; [rewrite enumerate_spec; reflexivity|vm_compute; reflexivity].
 Qed.
+
+(* ---- the statements of props/C07.v that combine several lemmas ------------------------------------------------- *)
+Lemma search_order_both : forall c,
+  find_in_config iad_from_bytes c = first_u3v iad_from_bytes (extras_in_order c) /\
+  find_in_config iad_from_bytes c = Ok (spec_find_config c).
+Proof. intros c. split; [exact (search_order c)|exact (find_in_config_pure c)]. Qed.
+
+Lemma interfaces_spec : forall i rs,
+  match spec_ctrl i with Some c => control_iface_info i = Ok c | None => exists e, control_iface_info i = Err e end /\
+  recv_info i = Ok (spec_recv i) /\
+  match spec_classify rs with Some p => classify rs = Ok p | None => exists e, classify rs = Err e end.
+Proof. intros i rs. split; [exact (control_iface_info_spec i)|split; [exact (recv_info_spec i)|exact (classify_spec rs)]]. Qed.
+
+Lemma enumerate_total_both : forall list_code ds,
+  fst (enumerate_devices list_code ds) <> Panic /\ run_enum list_code ds <> [2].
+Proof. intros l ds. split; [exact (enumerate_total l ds)|exact (run_enum_never_panics l ds)]. Qed.
+
+Lemma enumerate_members : forall ds k r,
+  In (k, r) (accepted_from 0 ds) <->
+  exists j, k = 0 + Z.of_nat j /\ exists d, nth_error ds j = Some d /\ accept_spec d = Some r.
+Proof. intros ds k r. exact (accepted_from_in ds 0 k r). Qed.
+
+Lemma enumerate_order : forall ds a b,
+  StronglySorted Z.lt (map fst (accepted_from 0 ds)) /\
+  accepted_from 0 (a ++ b) = accepted_from 0 a ++ accepted_from (0 + Z.of_nat (length a)) b.
+Proof. intros ds a b. split; [exact (proj1 (accepted_from_sorted ds 0))|exact (accepted_from_app a b 0)]. Qed.
+
+Lemma enumerate_calls : forall di d x c list_code ds,
+  (candidate d = false -> enum_device iad_from_bytes di d = (Ok None, [1; di])) /\
+  snd (build di d x c) = [3; di] ++ (if d_open d =? 0 then snd (build_opened di d x c) ++ [7; di] else []) /\
+  (list_code < 0 -> enumerate_devices list_code ds = (Err (usb_kind list_code), [13])).
+Proof.
+  intros di d x c l ds.
+  split; [exact (non_candidate_untouched di d)|split; [exact (build_log di d x c)|exact (enumerate_list_error l ds)]].
+Qed.
